@@ -19,7 +19,14 @@ pub fn tok_soup(s: &mut Src, max_frags: usize) -> String {
     let n = s.len(max_frags);
     let mut out = String::new();
     for _ in 0..n {
-        if s.chance(200) {
+        if s.chance(8) {
+            // a run long enough for the 16-byte SIMD stride, with a special character somewhere
+            let k = s.range(14, 70);
+            for _ in 0..k {
+                out.push(*s.pick(&['a', 'b', ' ', 'c', '\n', 'é', 'd', 'e']));
+            }
+            out.push(*s.pick(&['<', '&', '\r', '\0', 'x']));
+        } else if s.chance(200) {
             out.push_str(*s.pick(TOK_FRAGMENTS));
         } else {
             out.push(s.any_char());
@@ -42,7 +49,13 @@ pub fn noise(s: &mut Src, text: String) -> String {
             continue;
         }
         let i = s.below(cs.len());
-        match s.below(3) {
+        match s.below(4) {
+            3 => {
+                // flip the case of the next ASCII letter
+                if let Some(j) = (i..cs.len()).find(|j| cs[*j].is_ascii_alphabetic()) {
+                    cs[j] = if cs[j].is_ascii_uppercase() { cs[j].to_ascii_lowercase() } else { cs[j].to_ascii_uppercase() };
+                }
+            },
             0 => cs.insert(i, s.char_from(NOISE)),
             1 => {
                 cs.remove(i);
@@ -76,7 +89,12 @@ pub const FOREIGN: &[&str] = &[
     "svg", "math", "foreignObject", "desc", "title", "mi", "mo", "mn", "ms", "mtext", "annotation-xml", "mglyph", "malignmark",
     "path", "g", "circle", "clipPath", "altGlyph", "feBlend", "linearGradient", "textPath", "mrow", "semantics",
 ];
-pub const MISC: &[&str] = &["span", "isindex", "x-custom", "unknown", "label", "output", "nextid", "spacer", "math", "svg", "sub", "var"];
+pub const MISC: &[&str] = &[
+    "span", "isindex", "x-custom", "unknown", "label", "output", "nextid", "spacer", "math", "svg", "sub", "var", "acronym", "bdo",
+    "blink", "multicol", "noindex", "picture", "slot", "canvas", "audio", "video", "menuitem", "meter", "progress", "datalist",
+    "legend", "abbr", "cite", "q", "time", "mark", "kbd", "samp", "ins", "del", "map", "sup", "big", "strike", "center", "keygen",
+    "command", "content", "shadow", "element", "rb", "rtc", "wbr", "data", "bdi", "dfn", "address", "hgroup", "main", "search",
+];
 
 pub const FAMILIES: &[&[&str]] = &[
     HEAD_FAMILY, BLOCK, HEADINGS, LISTS, FORMATTING, SCOPING, TABLE, SELECT, RUBY, VOID, RAW, FRAMES, FOREIGN, MISC,
@@ -85,8 +103,17 @@ const FAMILY_WEIGHTS: &[u32] = &[10, 14, 3, 6, 18, 4, 16, 6, 3, 5, 5, 3, 10, 5];
 
 pub fn pick_name(s: &mut Src) -> &'static str {
     let f = s.weighted(FAMILY_WEIGHTS);
+    if std::ptr::eq(FAMILIES[f], FOREIGN) && s.chance(90) {
+        // any entry of the SVG tag-name adjustment table (lower-case spelling, as it arrives)
+        return s.pick(crate::refimpl::treebuilder::SVG_TAGS).0;
+    }
     *s.pick(FAMILIES[f])
 }
+
+const FOREIGN_ATTRS: &[&str] = &[
+    "xlink:actuate", "xlink:arcrole", "xlink:href", "xlink:role", "xlink:show", "xlink:title", "xlink:type", "xml:lang", "xml:space",
+    "xmlns", "xmlns:xlink", "definitionurl", "xlink:foo", "xml:base", "xmlns:foo",
+];
 
 const ATTRS: &[&str] = &[
     "id=a", "class=c", "type=hidden", "type=text", "TYPE=HIDDEN", "encoding=text/html", "encoding=\"application/xhtml+xml\"",
@@ -107,7 +134,18 @@ fn gen_attrs(s: &mut Src, out: &mut String) {
     };
     for _ in 0..n {
         out.push(*s.pick(&[' ', ' ', ' ', '\n', '\t', '/']));
-        out.push_str(*s.pick(ATTRS));
+        match s.below(12) {
+            0 => {
+                // any entry of the SVG attribute adjustment table
+                out.push_str(s.pick(crate::refimpl::treebuilder::SVG_ATTRS).0);
+                out.push_str("=v");
+            },
+            1 => {
+                out.push_str(*s.pick(FOREIGN_ATTRS));
+                out.push_str("=w");
+            },
+            _ => out.push_str(*s.pick(ATTRS)),
+        }
     }
 }
 
@@ -220,13 +258,32 @@ pub fn gen_html(s: &mut Src, max_tokens: usize) -> String {
                     "<li><li>", "<h1><h2>", "<hgroup><h1>", "<dialog><p>", "<search><p>", "<summary><details>", "<image>",
                     "<isindex>", "<svg><image>", "<math><mglyph>", "<svg><script>", "<svg><style>", "<svg><svg/>", "<p><table>",
                     "<applet><p></applet>", "<marquee><b></marquee>", "<object><i></object>", "<selectedcontent>",
+                    "<a><b><i><u><s><em><div>x</a>y", "<b><div><div><div><div><div><div><div><div><div><div>x</b>y",
+                    "<b class=x><b class=x><b class=x><b class=x><p>z", "<font><font><font><font><p>", "<b><i><u><s><em><strong><tt><big><small><p>x</b>",
+                    "<a><a><a><a><a>", "<nobr><b><nobr><i><nobr>", "<table><a><b><i><u><td>x</a>", "<b><b><b><b><b><b><b><b><b><b><div>q</b></b></b></b>",
                     "<option selected>", "</select>", "</head><script>", "</head><title>", "</head><meta charset=x>", "</head><style>",
                     "<head></head><link>", "</head><template>", "</head><noframes>", "</head><base>", "</option>", "</table>", "</td>", "</tr>", "</caption>", "</tbody>",
                 ]));
             },
             _ => {
-                // whitespace-only text (matters in table / head / frameset modes)
-                out.push_str(*s.pick(&[" ", "\n", "\t", " \n ", "\x0C", "\r\n"]));
+                if s.chance(24) {
+                    // thresholds: many repetitions of one tag (8-40)
+                    let name = pick_name(s);
+                    let k = s.range(8, 40);
+                    let close = s.bool();
+                    for _ in 0..k {
+                        out.push_str(&format!("<{name}>"));
+                    }
+                    if close {
+                        let k2 = s.range(1, k);
+                        for _ in 0..k2 {
+                            out.push_str(&format!("</{name}>"));
+                        }
+                    }
+                } else {
+                    // whitespace-only text (matters in table / head / frameset modes)
+                    out.push_str(*s.pick(&[" ", "\n", "\t", " \n ", "\x0C", "\r\n"]));
+                }
             },
         }
     }
